@@ -123,7 +123,7 @@ func VerifC04Joins() {
 		}
 	}
 	want := MustNewSet(expected...)
-	e := op.mk(parser.Scanner{}, A, B)
+	e := op.mk(*parser.NewScanner(""), A, B)
 	var res Value
 	var err error
 	p := verifTry(func() { res, err = e.Eval(context.Background(), EmptyScope) })
